@@ -35,7 +35,7 @@ def api_sweep(rep, tier_, rng):
                 calls += 1
                 try:
                     v = sweep.call_with_timeout(thunk, 5)
-                except sweep.EXPECTED_ERRORS + (mpmath.libmp.NoConvergence, sweep.CallTimeout):
+                except (Exception, sweep.CallTimeout):
                     errors += 1; continue
                 for t in parts(v):
                     values += 1
@@ -53,7 +53,7 @@ def api_sweep(rep, tier_, rng):
                     calls += 1
                     try:
                         v = f()
-                    except sweep.EXPECTED_ERRORS:
+                    except Exception:
                         errors += 1; continue
                     for t in parts(v):
                         values += 1
